@@ -121,6 +121,10 @@ class Env:
         self.frames = []
         self.nested_plan = None     # (actor, action) for the callbacks of nested dispatches
         self.tainted = False        # an active dispatch (callbacks with side effects) has run
+        self.kwnames = ('key',)
+        self.cleared_once = set()   # handlers that were registered when clear() was called
+        self.double = set()         # registered handlers that were added again while registered
+        self.removed_after_double = set()   # ... and then removed once
         self.serial = 0
 
     def probe(self, cands):
@@ -147,6 +151,9 @@ class Env:
     def add(self, j, where):
         if j in self.reg:
             self.sp.cover('double-add')
+            self.double.add(j)
+        elif j in self.cleared_once:
+            self.sp.cover('readded-after-clear')
         self.d.add_handler(self.hs[j])
         self.reg.add(j)
         for f in self.frames:
@@ -156,11 +163,24 @@ class Env:
     def remove(self, j, where):
         if j not in self.reg:
             self.sp.cover('remove-unregistered')
+        elif j in self.double:
+            self.removed_after_double.add(j)
+        self.double.discard(j)
         self.d.remove_handler(self.hs[j])
         self.reg.discard(j)
         for f in self.frames:
             f.touched.add(j)
         self.sp.note('%sremove_handler(h%d)' % (where, j))
+
+    def clear(self, where):
+        if self.reg:
+            self.sp.cover('cleared-registered-handlers')
+        self.d.clear()
+        self.cleared_once |= set(self.reg)
+        self.reg.clear()
+        for f in self.frames:
+            f.touched.update(range(self.n))
+        self.sp.note('%sclear()' % where)
 
     def check_membership(self, when):
         for i, h in enumerate(self.hs):
@@ -176,7 +196,11 @@ class Env:
             args.append(self.sp.int(label + '.payload'))       # a solver integer travels through untouched
         if npos >= 2:
             args.append(object())
-        kwargs = {'key': object()} if nkw else {}
+        kwargs = {}
+        if nkw:
+            name = self.sp.pick(list(self.kwnames), label + '.kwname')
+            kwargs[name] = object()
+            self.sp.cover('kwarg-name-' + name)
         return tuple(args), kwargs
 
     def do_dispatch(self, event, args, kwargs, actions, where):
@@ -245,11 +269,15 @@ class Env:
                 sp.check(len(mine) >= 1, 'missed', '%s is registered and was not called' % what)
                 sp.check(len(mine) == 1, 'duplicate', '%s was called %d times' % (what, len(mine)))
                 sp.cover('delivered')
+                if i in self.double:
+                    sp.cover('dispatch-after-double-add')
                 if self.flavours[i]:
                     sp.cover('delivered-to-' + FLAVOURS[self.flavours[i]])
             else:
                 sp.check(not mine, 'spurious-call', '%s is not a registered listener but was called: %r'
                          % (what, [c[1] for c in mine]))
+                if i in self.removed_after_double and i not in self.reg and mapped is not None:
+                    sp.cover('dispatch-after-double-add-and-one-remove')
             for (_, method, args, kwargs) in mine:
                 sp.check(method == mapped, 'wrong-method', '%s: method %r called, the mapping says %r'
                          % (what, method, mapped))
@@ -272,11 +300,12 @@ class Env:
             sp.cover('nobody-listens')
 
 
-PRE = ['never', 'added', 'added twice', 'added, removed', 'added, removed, added']
+PRE = ['never', 'added', 'added twice', 'added, removed', 'added, removed, added', 'added, clear(), added']
 
 
 def h_history(sp, n=3, build=False, steps=3, menu=('none', 'rm self', 'rm next', 'add next', 'disp'),
-              shapes=(0, 2, 5), nested=True, pre=(0, 1, 2, 3, 4), orders=(0,), flavours=(0,)):
+              shapes=(0, 2, 5), nested=True, pre=(0, 1, 2, 3, 4), orders=(0,), flavours=(0,), clear=True,
+              kwnames=('key',)):
     perms = list(itertools.permutations(range(n)))
     order = perms[sp.pick(list(orders), 'listener-order')]
     sp.note('listener iteration order: %r' % (order,))
@@ -284,6 +313,7 @@ def h_history(sp, n=3, build=False, steps=3, menu=('none', 'rm self', 'rm next',
     if any(fl):
         sp.note('handler flavours: %s' % ', '.join('h%d=%s' % (i, FLAVOURS[f]) for i, f in enumerate(fl)))
     env = Env(sp, n, order, fl)
+    env.kwnames = tuple(kwnames)
     if build:
         for i in range(n):
             hist = PRE[sp.pick(list(pre), 'history[h%d]' % i)]
@@ -296,15 +326,20 @@ def h_history(sp, n=3, build=False, steps=3, menu=('none', 'rm self', 'rm next',
                 sp.cover('removed-before')
             if hist == 'added, removed, added':
                 env.add(i, '')
+            if hist == 'added, clear(), added':      # clear() also unregisters the handlers built before
+                env.clear('')
+                env.add(i, '')
         env.check_membership('after build')
     for step in range(steps):
-        op = sp.choose(2 * n + len(EVENTS), 'op%d' % step)
+        op = sp.choose(2 * n + len(EVENTS) + (1 if clear else 0), 'op%d' % step)
         if op < n:
             env.add(op, '')
         elif op < 2 * n:
             if (op - n) in env.reg:
                 sp.cover('removed-before')
             env.remove(op - n, '')
+        elif op == 2 * n + len(EVENTS):
+            env.clear('')
         else:
             event = EVENTS[op - 2 * n]
             shape = SHAPES[sp.pick(list(shapes), 'shape%d' % step)]
@@ -408,11 +443,15 @@ def h_twins(sp, n=2, build=False, steps=3, shapes=(0, 5), pre=(0, 1, 2, 3, 4)):
                 add(i)
         membership('after build')
     for step in range(steps):
-        op = sp.choose(2 * n + len(EVENTS), 'op%d' % step)
+        op = sp.choose(2 * n + len(EVENTS) + 1, 'op%d' % step)
         if op < n:
             add(op)
         elif op < 2 * n:
             remove(op - n)
+        elif op == 2 * n + len(EVENTS):
+            d.clear()
+            reg.clear()
+            sp.note('clear()')
         else:
             event = EVENTS[op - 2 * n]
             npos, nkw = SHAPES[sp.pick(list(shapes), 'shape%d' % step)]
@@ -687,7 +726,12 @@ def h_late(sp, nnames=2, kinds=(0, 1, 2)):
 
 
 HIST_TAGS = ['delivered', 'removed-during-dispatch', 'added-during-dispatch', 'nested-dispatch', 'double-add',
-             'removed-before', 'two-listeners', 'nobody-listens', 'remove-unregistered']
+             'removed-before', 'two-listeners', 'nobody-listens', 'remove-unregistered',
+             'cleared-registered-handlers']
+KWNAMES = ('target', 'method', 'handler', 'sender', 'name', 'value', 'priority', 'first', 'default')
+KW_REQ = ['delivered', 'two-listeners'] + ['kwarg-name-' + x for x in KWNAMES]
+DOUBLE_REQ = ['delivered', 'double-add', 'dispatch-after-double-add', 'dispatch-after-double-add-and-one-remove',
+              'readded-after-clear', 'cleared-registered-handlers']
 TWIN_TAGS = ['two-twins-served', 'twin-added-next-to-registered-twin', 'twin-removed-next-to-registered-twin',
              'unregistered-twin-removed']
 LATE_TAGS = ['instance-level-events', 'redecorated', 'method-replaced', 'mapping-differs', 'y-listens-to-more',
@@ -695,7 +739,7 @@ LATE_TAGS = ['instance-level-events', 'redecorated', 'method-replaced', 'mapping
 HARNESSES = {
     # shape H (from the empty dispatcher) and shape I + >=2 operations
     'history': dict(fn=h_history, nontrivial=HIST_TAGS[1:7] + ['dispatch-after-active-dispatch'],
-                    required=HIST_TAGS + ['dispatch-after-active-dispatch']),
+                    required=HIST_TAGS + ['dispatch-after-active-dispatch', 'readded-after-clear']),
     # shape I + one operation
     'state': dict(fn=h_history, nontrivial=HIST_TAGS[1:7], required=HIST_TAGS),
     'twins': dict(fn=h_twins, nontrivial=TWIN_TAGS, required=TWIN_TAGS),
@@ -716,6 +760,10 @@ TIERS = {
         ('state', dict(n=3, build=True, steps=1, pre=(0, 1, 2, 3), shapes=(0, 5))),
         ('state', dict(n=3, build=True, steps=1, pre=(1,), menu=('none', 'rm next', 'disp'), shapes=(5,),
                        flavours=(0, 1, 2, 3)), {'required': FLAVOUR_TAGS}),
+        ('state', dict(n=3, build=True, steps=1, pre=(1,), menu=('none',), shapes=(3, 4), kwnames=KWNAMES),
+         {'required': KW_REQ}),
+        ('history', dict(n=2, build=True, steps=2, pre=(0, 2, 5), menu=('none', 'rm self'), shapes=(0,)),
+         {'required': DOUBLE_REQ}),
         ('late', dict(nnames=2)),
         ('twins', dict(n=2, build=False, steps=3)),
         ('twins', dict(n=3, build=True, steps=1, pre=(0, 1, 3), shapes=(5,))),
@@ -734,6 +782,10 @@ TIERS = {
         ('decor', dict(shape='chain3', nnames=2)),
         ('decor', dict(shape='siblings', nnames=2)),
         ('decor-mi', dict(shape='two-roots', nnames=2)),
+        ('state', dict(n=3, build=True, steps=1, pre=(0, 1, 2), shapes=(3, 4, 5), kwnames=KWNAMES),
+         {'required': KW_REQ}),
+        ('history', dict(n=3, build=True, steps=2, pre=(0, 2, 5), menu=('none', 'rm self'), shapes=(0,)),
+         {'required': DOUBLE_REQ}),
         ('late', dict(nnames=3)),
         ('twins', dict(n=3, build=False, steps=4)),
         ('twins', dict(n=3, build=True, steps=2, shapes=(5,))),
@@ -755,10 +807,12 @@ RULE = ('one evaluation = one feasible path (distinct by construction); non-triv
         'from inside a callback, a nested dispatch ran, a double registration or a removal preceded a dispatch, two '
         'listeners were served, or a decoration overrode / extended an inherited mapping')
 BOUNDS = {
-    'quick': 'history: 3 handlers (classes HA, HB, HC(HA)), events e1,e2,unknown; H(3) from empty with 5 nested '
+    'quick': 'history: 3 handlers (classes HA, HB, HC(HA)), events e1,e2,unknown, ops add / remove / dispatch / clear(); H(3) from empty with 5 nested '
              'actions, 3 argument shapes, listener order h0<h1<h2 and its reverse; I: 4 registration histories per '
              'handler + 1 op with 5 nested actions, 2 shapes; nesting depth 2; I (all registered) + 1 op with every handler '
              'instance plain / __bool__ False / __len__ 0 / __eq__ always True (4^3 combinations, 3 actions, 1 shape).  '
+             'keyword names: 1 op on the all-registered state with one keyword drawn from 9 plausible payload names; '
+             'double add / clear: 2 handlers, histories never / added twice / added, clear(), added + 2 ops.  '
              'late mappings: a class created on the path, instance x registered, then the mapping of the next instance '
              'y differs (instance-level __events__ / class decorated again / callback replaced on the class; 2 event '
              'names), y on d1, d2 or both, all events on both dispatchers, again after removing x.  '
@@ -778,6 +832,10 @@ ASSUMPTIONS = [
     'a class without any mapping may lack __events__ altogether (read as the empty mapping); such classes are not '
     'registered (add_handler asserts the protocol)',
     'handlers stay alive during the whole history (weakness is C10); dispatching stays enabled (C04)',
+    'clear() of the dispatcher is an operation of the history: afterwards nobody is registered and the same objects '
+    'can be registered again like fresh ones; keyword arguments may carry any plausible payload name (target, method, '
+    'handler, sender, name, value, priority, first, default) - only self and event_name, which dispatch itself cannot '
+    'accept as keywords, stay out',
     'late mappings: a handler is served through the mapping it had when it was registered; for a handler registered '
     'BEFORE its class was decorated again or a callback was replaced on the class, the events whose mapping changed '
     'are left open (0 or 1 call), a handler registered afterwards must be served through the new mapping / function',
